@@ -272,7 +272,9 @@ class DuplicateKernel(Transformation):
         call_map = {}
         new_imports = []
         for call in FindNodes(ir.CallStatement).visit(routine.body):
-            call_name = str(call.name).lower()
+            # Use the kernel's name in its defining scope (resolves renaming upon import),
+            # consistent with the item names used when planning
+            call_name = str(getattr(call.name.type, 'use_name', None) or call.name).lower()
             if call_name in self.duplicate_kernels:
                 # Duplicate the call
                 new_call_name = f'{call_name}{self.suffix}'.lower()
